@@ -4,14 +4,19 @@
    One item = one history replayed into a real Gateway (harness: checks/c14.py):
      [ attrs |-> <<codes of attribute 1, ...>>,          \* each a sequence of code numbers
        ev    |-> << [k, code, form, cs, vs, life, t, c, a, obs, slots, exp] ... >> ]
+   t  = the clock (what the gateway's _dt_now() returns, ms) at the event; a packet's stamp (dtm) is the clock
+        at its receipt - it need not be later than the one before it (same millisecond / clock put back)
+   sk = by how much the clock has been put back in total up to the event (t + sk = the time really elapsed)
    k = "rx"    a packet of `code`/`form` for contexts cs with abstract values vs, lifetime `life`
-               (ms, read from the real packet; -1 = never expires), received at clock t
+               (ms, read from the real packet; -1 = never expires), received at clock t; the i-th "rx" event
+               is the i-th message to arrive (its arrival number)
        "other" a packet of another device / controller / code at clock t
        "tick"  the clock moved to t
        "read"  attribute a of context c was read (then the loop was drained); obs = the value
                (0 = unknown/None, 99 = a value no message carried, -1 = the read raised)
    after every event the harness records, at quiescence,
-     slots[c][code] = receipt time of the message in the entity's _msgs_[code] (0 = none)
+     slots[c][code] = arrival number of the message (by identity) in the entity's _msgs_[code] (0 = none,
+                      -1 = a message that is none of the history's)
      exp[i]         = msg._expired of the i-th received message (1/0, -1 = it raised)
 
    Judged here by TLC with the operators of MsgStore:
@@ -46,76 +51,95 @@ TInit ==
   /\ Init
 
 (* which clause does a disallowed read break? *)
-ReadClass(la, t, seen, c, codes, v) ==
+ReadClass(la, t, sk, seen, c, codes, v) ==
   LET n == Newest(la, c, codes)
       (* messages of the attribute (the newest or an older one of another code) that must be
          expired by now and carry the value that was reported *)
       stale == {x \in Known(la, c, codes) : MustBeExp(x, t) /\ x.vals[c] = v} IN
   IF v = -1 THEN "C14a:read-raises"
   ELSE IF n = NoMsg THEN "C14a:value-without-message"
-  ELSE IF NotYetDue(n, t) /\ v = Unknown THEN "C14b:unknown-before-lifetime"
-  ELSE IF NotYetDue(n, t) THEN "C14a:not-the-latest-value"
-  ELSE IF \E x \in stale : x.t \notin seen THEN "C14e:stale-value-on-first-read-after-expiry"
+  ELSE IF NotYetDue(n, t, sk) /\ v = Unknown THEN "C14b:unknown-before-lifetime"
+  ELSE IF NotYetDue(n, t, sk) THEN "C14a:not-the-latest-value"
+  ELSE IF \E x \in stale : x.n \notin seen THEN "C14e:stale-value-on-first-read-after-expiry"
   ELSE IF stale # {} THEN "C14e:stale-value-lingers"
   ELSE "C14a:not-the-latest-value"
 
-(* what the transcription (either variant of StaleFirstRead) returns *)
-ImplVals(sl, t, c, codes) ==
-  LET m == Picked(sl, c, codes) IN
-  IF m = NoMsg THEN {Unknown}
-  ELSE IF Expired(m, t) THEN {m.vals[c], Unknown} ELSE {m.vals[c]}
+(* Message._expired latches: once it has been evaluated to True it stays True, whatever the clock does.  The
+   harness evaluates it for every message after every event (exp[]), so prevExp tells which messages are latched;
+   this only shows when the clock is put back across a message's expiry instant (transcription, not contract) *)
+ExpiredL(m, t) == Expired(m, t) \/ (m.n >= 1 /\ m.n <= Len(prevExp) /\ prevExp[m.n] = 1)
 
+(* what the transcription (either variant of StaleFirstRead) returns if it picks m *)
+ImplVals(m, t, c) ==
+  IF m = NoMsg THEN {Unknown}
+  ELSE IF ExpiredL(m, t) THEN {m.vals[c], Unknown} ELSE {m.vals[c]}
+
+(* the stores hold the messages the transcription says they hold - by arrival number, i.e. by identity *)
 SlotTimes(sl, e) ==
   \A c \in 1..Len(e.slots) : \A k \in 1..Len(e.slots[c]) :
-     e.slots[c][k] = (IF sl[c][k] = NoMsg THEN 0 ELSE sl[c][k].t)
+     e.slots[c][k] = sl[c][k].n
 
 (* C14b/c/d on the recorded _expired flags, at clock t, for the messages am *)
-ExpClass(am, t, e) ==
+(* "before the lifetime has passed" on the real age, "once twice the lifetime has passed" on the age by the
+   clock; "never un-happens as time advances": judged unless the clock was put back at this very event *)
+ExpClass(am, t, sk, e) ==
   LET bad == {i \in 1..Len(am) :
                 \/ e.exp[i] = -1
-                \/ e.exp[i] = 1 /\ NotYetDue(am[i], t)
+                \/ e.exp[i] = 1 /\ NotYetDue(am[i], t, sk)
                 \/ e.exp[i] = 0 /\ MustBeExp(am[i], t)
-                \/ i <= Len(prevExp) /\ prevExp[i] = 1 /\ e.exp[i] # 1} IN
+                \/ i <= Len(prevExp) /\ prevExp[i] = 1 /\ e.exp[i] # 1 /\ t >= now} IN
   IF bad = {} THEN ""
   ELSE LET i == CHOOSE x \in bad : \A y \in bad : x <= y IN
        IF e.exp[i] = -1 THEN "C14c:expired-raises"
-       ELSE IF e.exp[i] = 1 /\ NotYetDue(am[i], t) THEN "C14b:expired-before-lifetime"
+       ELSE IF e.exp[i] = 1 /\ NotYetDue(am[i], t, sk) THEN "C14b:expired-before-lifetime"
        ELSE IF e.exp[i] = 0 /\ MustBeExp(am[i], t) THEN "C14c:not-expired-after-twice-lifetime"
        ELSE "C14d:expiry-undone"
 
 (* every distinct class is recorded once, with the line where it first occurred *)
 Add(f, line, cls) == IF cls = "" \/ \E i \in 1..Len(f) : f[i][2] = cls THEN f ELSE Append(f, <<line, cls>>)
 
+(* a read: the message the library picked (Picks: the greatest stamp; between equal stamps the choice is open -
+   the one that agrees with what was recorded is taken) *)
+ReadEffect(sl, m, t) == IF m # NoMsg /\ ExpiredL(m, t) THEN DeleteEffect(sl, {m}) ELSE sl
+
+GoodPicks(e, codes, t) ==
+  {x \in Picks(slot, e.c, codes) : SlotTimes(ReadEffect(slot, x, t), e) /\ e.obs \in ImplVals(x, t, e.c)}
+
 TStep ==
   /\ l <= NEv
   /\ LET e == Ev(l) IN
      /\ now' = e.t
+     /\ skew' = e.sk
+     /\ nrx' = IF e.k = "rx" THEN nrx + 1 ELSE nrx
      /\ IF e.k = "rx"
-        THEN LET m0 == Msg(e.code, e.form, ValsOf(e), e.t, e.life)
+        THEN LET m0 == Msg(e.code, e.form, ValsOf(e), e.t, e.life, nrx + 1, e.t + e.sk)
                  \* the transcription: what the library stores, with the lifetime it gave it
-                 ms == IF Len(e.mcs) = 0 THEN m0 ELSE Msg(e.code, "A", MergedValsOf(e), e.t, e.life)
+                 ms == IF Len(e.mcs) = 0 THEN m0
+                       ELSE Msg(e.code, "A", MergedValsOf(e), e.t, e.life, nrx + 1, e.t + e.sk)
                  \* the contract: a merged packet is, as the library itself says, an array received now - the newest
                  \* message of every zone it carries - and an array's lifetime is the one of the array it continues
                  \* (e.mlife), whatever lifetime the library gave it
-                 m  == IF Len(e.mcs) = 0 THEN m0 ELSE Msg(e.code, "A", MergedValsOf(e), e.t, e.mlife) IN
+                 m  == IF Len(e.mcs) = 0 THEN m0
+                       ELSE Msg(e.code, "A", MergedValsOf(e), e.t, e.mlife, nrx + 1, e.t + e.sk) IN
              /\ slot' = StoreEffect(slot, ms)
              /\ last' = StoreEffect(last, m)
              /\ allm' = Append(allm, m)
              /\ UNCHANGED seenExp
         ELSE IF e.k = "read"
         THEN LET codes == AttrCodes(e.a)
-                 m == Picked(slot, e.c, codes)
-                 ex == m # NoMsg /\ Expired(m, now') IN
-             /\ slot' = IF ex THEN DeleteEffect(slot, {m}) ELSE slot
-             /\ seenExp' = IF ex THEN seenExp \cup {m.t} ELSE seenExp
+                 cands == Picks(slot, e.c, codes)
+                 good  == GoodPicks(e, codes, e.t)
+                 m  == IF good # {} THEN CHOOSE x \in good : TRUE ELSE CHOOSE x \in cands : TRUE
+                 ex == m # NoMsg /\ ExpiredL(m, now') IN
+             /\ slot' = ReadEffect(slot, m, now')
+             /\ seenExp' = IF ex THEN seenExp \cup {m.n} ELSE seenExp
              /\ UNCHANGED <<last, allm>>
         ELSE UNCHANGED <<slot, last, allm, seenExp>>
      /\ LET codes == IF e.k = "read" THEN AttrCodes(e.a) ELSE {}
-            okC == e.k # "read" \/ e.obs \in Allowed(last, now', e.c, codes)
-            xc  == ExpClass(allm', now', e)
-            rc  == IF ~okC THEN ReadClass(last, now', seenExp, e.c, codes, e.obs) ELSE ""
-            okD == /\ SlotTimes(slot', e)
-                   /\ e.k = "read" => e.obs \in ImplVals(slot, now', e.c, codes) IN
+            okC == e.k # "read" \/ e.obs \in Allowed(last, now', skew', e.c, codes)
+            xc  == ExpClass(allm', now', skew', e)
+            rc  == IF ~okC THEN ReadClass(last, now', skew', seenExp, e.c, codes, e.obs) ELSE ""
+            okD == IF e.k = "read" THEN GoodPicks(e, codes, e.t) # {} ELSE SlotTimes(slot', e) IN
         /\ failC' = Add(Add(failC, l, rc), l, xc)
         /\ failD' = IF failD = <<>> /\ ~okD THEN <<l, "drift">> ELSE failD
      /\ prevExp' = e.exp
